@@ -575,9 +575,7 @@ func (s *Served) StatusREST() rest.Storage {
 // generators
 
 var (
-	labelPool = []map[string]string{nil, {"app": "gw"}, {"app": "gw", "tier": "edge"}, {"tier": "core"}}
-	annPool   = []map[string]string{nil, {"proxy.kubegateway.io/feature-gates": "A=true"}, {"proxy.kubegateway.io/feature-gates": "A=false"}, {"note": "x", "other": ""}}
-	genPool   = []int64{1, 1, 2, 5, 5, 41, 1 << 40, math.MaxInt64 - 1}
+	genPool = []int64{1, 1, 2, 5, 5, 41, 1 << 40, math.MaxInt64 - 1}
 )
 
 func copyMap(m map[string]string) map[string]string {
@@ -608,8 +606,16 @@ func (h *H) genStored(s *Served) []byte {
 	if s.Namespaced {
 		acc.SetNamespace("ns1")
 	}
-	acc.SetLabels(copyMap(rig.Pick(r, labelPool)))
-	acc.SetAnnotations(copyMap(rig.Pick(r, annPool)))
+	acc.SetLabels(genStrMap(r, labelKeys))
+	acc.SetAnnotations(genStrMap(r, annKeys))
+	if r.Intn(4) == 0 {
+		a := copyMap(acc.GetAnnotations())
+		if a == nil {
+			a = map[string]string{}
+		}
+		a["proxy.kubegateway.io/feature-gates"] = rig.Pick(r, []string{"A=true", "A=false"})
+		acc.SetAnnotations(a)
+	}
 	acc.SetGeneration(rig.Pick(r, genPool))
 	acc.SetUID(types.UID("uid-" + acc.GetName()))
 	acc.SetCreationTimestamp(metav1.Unix(1700000000, 0))
@@ -650,10 +656,14 @@ func (h *H) genSubmitted(s *Served, stored []byte, mask int) []byte {
 	v := reflect.ValueOf(obj).Elem()
 	acc, _ := meta.Accessor(obj)
 	if mask&dLabels != 0 {
-		acc.SetLabels(copyMap(rig.Pick(r, labelPool)))
+		m, e := editStrMap(r, acc.GetLabels(), labelKeys)
+		acc.SetLabels(m)
+		h.c.Count("label-edit:" + e)
 	}
 	if mask&dAnnotations != 0 {
-		acc.SetAnnotations(copyMap(rig.Pick(r, annPool)))
+		m, e := editStrMap(r, acc.GetAnnotations(), annKeys)
+		acc.SetAnnotations(m)
+		h.c.Count("annotation-edit:" + e)
 	}
 	if mask&dSpec != 0 {
 		if f := v.FieldByName("Spec"); f.IsValid() {
@@ -1030,7 +1040,7 @@ func main() {
 	installWidget()
 	rig.Main("C20", func(c *rig.Ctx) {
 		h := &H{c: c, served: map[string]*Served{}, obs: map[string]int{}}
-		c.SetRule("a case = one way a kind is served (the 2 registrations of rest.go as the real NewRESTStorageProvider builds them + 4 probe registrations through the same NewResourceREST; protobuf storage, JSON too in thorough) x an initial stored object or none x 1-6 requests (create / main update / status update; bodies are JSON documents derived from the stored one with any subset of {labels, annotations, spec, status, generation, other metadata} changed, spec/status filled by reflection from small pools so that draws collide; the histogram's differs:<mask> says which groups of the first request differ from the stored object, L=labels A=annotations S=spec T=status G=generation; streams: roundtrip (no explicit empties), explicit-empty ({} [] \"\" null spelled out), invalid-meta, extreme (stored generation MaxInt64/negative/0), history); distinct = distinct canonical case; non-trivial = some field group differs or the object is new")
+		c.SetRule("a case = one way a kind is served (the 2 registrations of rest.go as the real NewRESTStorageProvider builds them + 4 probe registrations through the same NewResourceREST; protobuf storage, JSON too in thorough) x an initial stored object or none x 1-6 requests (create / main update / status update; bodies are JSON documents derived from the stored one with any subset of {labels, annotations, spec, status, generation, other metadata} changed; label/annotation maps over a 5-key universe with values from {\"\",a,b} and changed by structured edits (rename key, swap values, replace an empty-valued key by another, add+remove at equal size, key case, change/add/remove; counted as label-edit:/annotation-edit:); spec/status filled by reflection from small pools and changed by the same kinds of edits on every map/list member or by re-fill; the histogram's differs:<mask> says which groups of the first request differ from the stored object, L=labels A=annotations S=spec T=status G=generation; streams: roundtrip (no explicit empties), explicit-empty ({} [] \"\" null spelled out), invalid-meta, extreme (stored generation MaxInt64/negative/0), history); distinct = distinct canonical case; non-trivial = some field group differs or the object is new")
 		if err := h.addPlane(protobufMedia, ""); err != nil {
 			c.Fail(rig.Failure{Kind: "diff", Class: "c20.plane", What: "the control plane's REST storage can no longer be built the way the harness does: " + err.Error()})
 			return
